@@ -396,6 +396,7 @@ def _drop_package(r):
 
 def mutants(repo):
     return [
+        Mutant('import-name-skips-false-objects', lambda r: in_func(r, 'utils.import_name', "        if current is not None:\n            try:\n                current = getattr(current, element)", "        if current:\n            try:\n                current = getattr(current, element)"), ['C13.R6']),
         Mutant('relative-import-without-package', lambda r: _drop_package(r), ['C13.R6']),
         Mutant('import-node-evaluates-to-nothing', lambda r: in_func(r, 'ImportNode.ayns.on_evaluate_impl', "return import_name(str(self))", "import_name(str(self))"), ['C13.R6']),
         Mutant('function-node-truth-lost', lambda r: in_func(r, 'FunctionNode.__bool__', "return bool(self._func)", "bool(self._func)"), ['C13.R3']),
